@@ -1081,6 +1081,10 @@ func (c *CEnv) callExpr(e *CE, hint *Value) Value {
 	case "arr":
 		// the backing array (reference) of a slice: arr(a) == arr(b) says they share storage
 		a := c.eval(e.Args[0])
+		if a.K == KPtr {
+			// the object a pointer points to (or into): arr(addr(local)) names a local array's storage
+			return Value{K: KScalar, X: a.Loc.Root}
+		}
 		if a.K != KSlice {
 			c.fail("arr() of non-slice")
 		}
